@@ -143,6 +143,7 @@ var VerdictDefects = map[string]func(*model.Defects){
 	"addprop-container-lax":          func(d *model.Defects) { d.AddPropObjLax = true },
 	"allof-same-keyword-first-wins":  func(d *model.Defects) { d.AllOfFirstWins = true },
 	"allof-ref-nested-type-reused":   func(d *model.Defects) { d.AllOfNestedReuse = true },
+	"named-nullable-scalar-no-rules": func(d *model.Defects) { d.NamedNullableNoRule = true },
 	"untyped-composition-definition": func(d *model.Defects) { d.UntypedCompDef = true },
 	"minsized-uint8-array-is-bytes":  func(d *model.Defects) { d.Uint8ArrayBase64 = true },
 	"named-format-type":              func(d *model.Defects) { d.NamedFormat = true },
